@@ -4,6 +4,8 @@ import (
 	"fmt"
 	"os"
 	"go/ast"
+
+	"golang.org/x/tools/go/ast/astutil"
 	"go/token"
 	"go/types"
 	"sort"
@@ -33,6 +35,7 @@ func (vc *VC) reset() {
 	vc.hin = map[int]*Heap{}
 	vc.nfresh = 0
 	vc.strLits = map[string]Term{}
+	vc.litTerms = map[Term]bool{"empty_str": true}
 	vc.strOrder = nil
 	vc.fltLits = map[string]int{}
 	vc.unsupported = nil
@@ -47,6 +50,7 @@ func (vc *VC) reset() {
 	vc.loopSpecs = map[int]*LoopSpec{}
 	vc.params = map[string]ssa.Value{}
 	vc.fromField = map[ssa.Value]string{}
+	vc.addrVars = map[ssa.Value]bool{}
 }
 
 // Generate runs the translation (two passes: the first discovers the heap arrays).
@@ -112,7 +116,7 @@ func (vc *VC) translate() {
 		ce := vc.envEntry()
 		for _, c := range vc.con.Requires {
 			ce.err = nil
-			t := ce.eval(c.Expr)
+			t := ce.evalTop(c.Expr, false)
 			if ce.err != nil {
 				vc.unsupp("requires %q: %v", c.Text, ce.err)
 				continue
@@ -121,6 +125,34 @@ func (vc *VC) translate() {
 		}
 	}
 	vc.assumeAxioms()
+	if vc.con != nil {
+		for _, name := range vc.con.Uses {
+			lm := vc.e.cs.Lemmas[name]
+			if lm == nil {
+				vc.unsupp("unknown lemma %s", name)
+				continue
+			}
+			ce := &cenv{vc: vc, vars: map[string]cval{}, heap: vc.entry}
+			t := ce.eval(lm.Expr)
+			if ce.err != nil {
+				vc.unsupp("lemma %s: %v", name, ce.err)
+				continue
+			}
+			vc.fact(t.t)
+			vc.usedTrusted["spec axiom "+name+": "+lm.Text] = true
+		}
+	}
+	if vc.con != nil {
+		for _, h := range vc.con.Hints {
+			ce := vc.envEntry()
+			t := ce.eval(h.Expr)
+			if ce.err != nil {
+				vc.unsupp("hint %q: %v", h.Text, ce.err)
+				continue
+			}
+			vc.fact(t.t)
+		}
+	}
 	vc.items = append(vc.items, &item{probe: true})
 	if vc.con != nil && len(vc.con.Effects) > 0 {
 		saved := vc.con.FreshWrites
@@ -350,6 +382,7 @@ func (vc *VC) bindLoops() {
 			hdrLoop[h] = best
 		}
 	}
+	vc.hdrSrc = hdrLoop
 	if vc.con == nil {
 		return
 	}
@@ -412,7 +445,38 @@ func (vc *VC) bindLoops() {
 
 // namesAt resolves source variable names visible at the header of loop h to SSA values.
 func (vc *VC) namesAt(b *ssa.BasicBlock) map[string]ssa.Value {
+	// Go scoping: a name denotes the object visible at the end of the body of the innermost source
+	// loop containing b (so that shadowed variables of other scopes are not confused)
+	pos := token.NoPos
+	if vc.evalPos.IsValid() {
+		pos = vc.evalPos // names are resolved as Go would at this point of the source
+	} else if h := vc.innermostLoop(b.Index); h >= 0 {
+		switch l := vc.hdrSrc[h].(type) {
+		case *ast.ForStmt:
+			pos = l.Body.Rbrace
+		case *ast.RangeStmt:
+			pos = l.Body.Rbrace
+		}
+	}
+	var scope *types.Scope
+	if pos.IsValid() {
+		scope = vc.e.tpkg.Scope().Innermost(pos)
+	}
+	visible := func(name string, obj types.Object, declPos token.Pos) bool {
+		if scope == nil {
+			return true
+		}
+		_, o := scope.LookupParent(name, pos)
+		if o == nil {
+			return false
+		}
+		if obj != nil {
+			return o == obj
+		}
+		return o.Pos() == declPos
+	}
 	out := map[string]ssa.Value{}
+	addrOf := vc.addrVars
 	// walk dominator chain from b upward; nearer definitions win
 	for x := b; x != nil; x = x.Idom() {
 		// phis with comments (in block order), debug refs in reverse
@@ -420,20 +484,32 @@ func (vc *VC) namesAt(b *ssa.BasicBlock) map[string]ssa.Value {
 		for _, ins := range x.Instrs {
 			switch p := ins.(type) {
 			case *ssa.Phi:
-				if p.Comment != "" {
+				if p.Comment != "" && visible(p.Comment, nil, p.Pos()) {
 					if _, ok := local[p.Comment]; !ok {
 						local[p.Comment] = p
 					}
 				}
 			}
 		}
-		if x != b {
-			for i := len(x.Instrs) - 1; i >= 0; i-- {
-				if d, ok := x.Instrs[i].(*ssa.DebugRef); ok && !d.IsAddr {
-					if id, ok := d.Expr.(*ast.Ident); ok {
+		if x != b || vc.loopBlks[b.Index] == nil {
+			start := len(x.Instrs) - 1
+			if x == vc.blk && vc.curIdx >= 0 && vc.curIdx < len(x.Instrs) {
+				start = vc.curIdx // only what has been executed so far in the current block
+			}
+			for i := start; i >= 0; i-- {
+				if d, ok := x.Instrs[i].(*ssa.DebugRef); ok {
+					if id, ok := d.Expr.(*ast.Ident); ok && visible(id.Name, d.Object(), token.NoPos) {
 						if _, ok := local[id.Name]; !ok {
+							if d.IsAddr {
+								// a variable kept in memory: d.X is its address
+								if _, isAlloc := d.X.(*ssa.Alloc); isAlloc {
+									local[id.Name] = d.X
+									addrOf[d.X] = true
+								}
+								continue
+							}
 							// a later phi in the same block does not exist (phis come first), so the last debug ref wins
-							local[id.Name] = d.X
+							local[id.Name] = debugRefValue(x, i, d)
 						}
 					}
 				}
@@ -469,10 +545,29 @@ func (vc *VC) envAt(b *ssa.BasicBlock, heap *Heap, sub map[ssa.Value]Term) *cenv
 			ce.vars[name] = cval{t: Sel(vc.arrIn(heap, n, s), t), typ: ty}
 			continue
 		}
-		if _, isLV := vc.lv[v]; isLV {
+		if l, isLV := vc.lv[v]; isLV {
+			if l.arr != "" && isStruct(deref(v.Type())) {
+				ce.vars[name] = cval{t: t, typ: v.Type(), lv: l}
+			}
+			continue
+		}
+		if vc.addrVars[v] {
+			// the name denotes the content of the variable's memory cell
+			et := deref(v.Type())
+			if isStruct(et) {
+				ce.vars[name] = cval{t: t, typ: et, atRef: true}
+			} else {
+				n, s := vc.e.cellArr(et)
+				ce.vars[name] = cval{t: Sel(vc.arrIn(heap, n, s), t), typ: et}
+			}
 			continue
 		}
 		ce.vars[name] = cval{t: t, typ: v.Type()}
+	}
+	// variables bound by enclosing type switches (`switch x := e.(type)`): go/ssa records them only
+	// where they are used; resolve them from the switch itself
+	if vc.evalPos.IsValid() {
+		vc.typeSwitchNames(ce, vc.evalPos)
 	}
 	// entry values of parameters: <name>0
 	for name, p := range vc.params {
@@ -568,6 +663,7 @@ func (vc *VC) block(b *ssa.BasicBlock) {
 	}
 
 	for i, ins := range b.Instrs {
+		vc.curIdx = i
 		if as := vc.escBefore[ins]; len(as) > 0 {
 			vc.escapeChecks(as, ins.Pos())
 		}
@@ -737,7 +833,7 @@ func (vc *VC) loopHeader(b *ssa.BasicBlock, inEdges []Term, inPreds []*ssa.Basic
 			}
 			for _, inv := range ls.Invariants {
 				ce := vc.envAt(b, vc.hout[p.Index], sub)
-				t := ce.eval(inv.Expr)
+				t := ce.evalTop(inv.Expr, true)
 				if ce.err != nil {
 					vc.unsupp("invariant %q: %v", inv.Text, ce.err)
 					continue
@@ -802,7 +898,7 @@ func (vc *VC) loopHeader(b *ssa.BasicBlock, inEdges []Term, inPreds []*ssa.Basic
 	if ls != nil {
 		for _, inv := range ls.Invariants {
 			ce := vc.envAt(b, vc.cur, nil)
-			t := ce.eval(inv.Expr)
+			t := ce.evalTop(inv.Expr, false)
 			if ce.err != nil {
 				continue
 			}
@@ -855,6 +951,15 @@ func stepDir(v ssa.Value, phi *ssa.Phi) int {
 // backEdgeChecks emits invariant preservation / variant checks for edge from current block to header hb.
 func (vc *VC) backEdgeChecks(hb *ssa.BasicBlock, edge Term) {
 	h := hb.Index
+	// names are resolved in the scope of the loop whose back edge this is (the source block may
+	// belong to a nested loop)
+	switch l := vc.hdrSrc[h].(type) {
+	case *ast.ForStmt:
+		vc.evalPos = l.Body.Rbrace
+	case *ast.RangeStmt:
+		vc.evalPos = l.Body.Rbrace
+	}
+	defer func() { vc.evalPos = token.NoPos }()
 	ls := vc.loopSpecs[h]
 	props := vc.safetyProps()
 	if vc.con != nil && len(vc.con.Props) > 0 {
@@ -881,7 +986,12 @@ func (vc *VC) backEdgeChecks(hb *ssa.BasicBlock, edge Term) {
 		for _, blk := range vc.ownLoopBlocks(h) {
 			for _, ins := range blk.Instrs {
 				if c, ok := ins.(*ssa.Call); ok {
-					if g := c.Call.StaticCallee(); g != nil && vc.e.fname(g) == bc.Fn {
+					if bi, ok := c.Call.Value.(*ssa.Builtin); ok && bi.Name() == bc.Fn {
+						if r, ok := vc.reach[blk.Index]; ok {
+							reaches = append(reaches, r)
+						}
+					}
+					if g := c.Call.StaticCallee(); g != nil && (vc.e.fname(g) == bc.Fn || libName(g) == bc.Fn) {
 						if r, ok := vc.reach[blk.Index]; ok {
 							reaches = append(reaches, r)
 						}
@@ -889,10 +999,16 @@ func (vc *VC) backEdgeChecks(hb *ssa.BasicBlock, edge Term) {
 				}
 			}
 		}
+		// loop-carried variables denote their value at the start of the iteration, variables defined
+		// in the body their value in this iteration
 		ce := vc.envAt(vc.blk, vc.cur, nil)
-		t := ce.eval(bc.Cond)
+		hce := vc.envAt(hb, vc.cur, nil)
+		for name, v := range hce.vars {
+			ce.vars[name] = v
+		}
+		t := ce.evalTop(bc.Cond, true)
 		if ce.err != nil {
-			vc.unsupp("body_calls %q: %v", bc.Text, ce.err)
+			vc.unsupp("body_calls %q: %v (back edge from block %d %s)", bc.Text, ce.err, vc.blk.Index, vc.blk.Comment)
 			continue
 		}
 		pr := props
@@ -903,7 +1019,7 @@ func (vc *VC) backEdgeChecks(hb *ssa.BasicBlock, edge Term) {
 	}
 	for _, inv := range ls.Invariants {
 		ce := vc.envAt(hb, vc.cur, sub)
-		t := ce.eval(inv.Expr)
+		t := ce.evalTop(inv.Expr, true)
 		if ce.err != nil {
 			continue
 		}
@@ -1073,4 +1189,104 @@ func (vc *VC) innermostLoop(b int) int {
 		}
 	}
 	return best
+}
+
+// debugRefValue: go/ssa records `x := T{...}` (map and slice literals) with a debug ref to the zero
+// value placed before the literal is built; the variable's value is the literal that follows.
+func debugRefValue(b *ssa.BasicBlock, i int, d *ssa.DebugRef) ssa.Value {
+	c, ok := d.X.(*ssa.Const)
+	if !ok || c.Value != nil {
+		return d.X
+	}
+	for j := i + 1; j < len(b.Instrs); j++ {
+		switch x := b.Instrs[j].(type) {
+		case *ssa.DebugRef:
+			return d.X
+		case *ssa.MakeMap:
+			if types.Identical(x.Type(), c.Type()) {
+				return x
+			}
+		case *ssa.MakeSlice:
+			if types.Identical(x.Type(), c.Type()) {
+				return x
+			}
+		case *ssa.Slice:
+			if types.Identical(x.Type(), c.Type()) {
+				return x
+			}
+		}
+	}
+	return d.X
+}
+
+// typeSwitchNames binds the variables of the type switches enclosing pos.
+func (vc *VC) typeSwitchNames(ce *cenv, pos token.Pos) {
+	f := vc.e.fileOf(pos)
+	if f == nil {
+		return
+	}
+	path, _ := astutil.PathEnclosingInterval(f, pos, pos)
+	for i := len(path) - 1; i >= 0; i-- {
+		ts, ok := path[i].(*ast.TypeSwitchStmt)
+		if !ok {
+			continue
+		}
+		as, ok := ts.Assign.(*ast.AssignStmt)
+		if !ok || len(as.Lhs) != 1 {
+			continue
+		}
+		id, ok := as.Lhs[0].(*ast.Ident)
+		if !ok {
+			continue
+		}
+		// the clause containing pos
+		var clause *ast.CaseClause
+		for _, st := range ts.Body.List {
+			cc := st.(*ast.CaseClause)
+			if cc.Pos() <= pos && pos <= cc.End() {
+				clause = cc
+			}
+		}
+		if clause == nil {
+			continue
+		}
+		// type assertions emitted for this switch: their position is the `case` keyword of a clause
+		casePos := map[token.Pos]*ast.CaseClause{}
+		for _, st := range ts.Body.List {
+			cc := st.(*ast.CaseClause)
+			casePos[cc.Case] = cc
+		}
+		var scrut ssa.Value
+		var narrowed *ssa.TypeAssert
+		for _, b := range vc.fn.Blocks {
+			for _, ins := range b.Instrs {
+				ta, ok := ins.(*ssa.TypeAssert)
+				if !ok {
+					continue
+				}
+				if cc, ok := casePos[ta.Pos()]; ok {
+					scrut = ta.X
+					if cc == clause && len(clause.List) == 1 {
+						narrowed = ta
+					}
+				}
+			}
+		}
+		if scrut == nil {
+			continue
+		}
+		if narrowed != nil {
+			if tp, ok := vc.tuple[narrowed]; ok && len(tp) > 0 {
+				ce.vars[id.Name] = cval{t: tp[0], typ: narrowed.AssertedType}
+				continue
+			}
+			if t, ok := vc.val[narrowed]; ok && !narrowed.CommaOk {
+				ce.vars[id.Name] = cval{t: t, typ: narrowed.AssertedType}
+				continue
+			}
+		}
+		if t, ok := vc.val[scrut]; ok {
+			ce.vars[id.Name] = cval{t: t, typ: scrut.Type()}
+		}
+	}
 }
